@@ -38,6 +38,11 @@ enum Req {
     Upsert(u64, Option<u64>, Option<i64>, Option<u128>, bool),
     GetRef(u64),
     Shutdown,
+    /// `put` / `put_with_ttl`: the weight comes from the installed weight function (the same programme as `PutW` in the model)
+    PutFn(u64, u64, i64, Option<u128>),
+    /// `map_get` / `map_get_ref`: the same programmes as `get` / `get_ref`
+    MapGet(u64),
+    MapGetRef(u64),
 }
 
 fn opt<T: std::fmt::Display>(value: &Option<T>) -> String { value.as_ref().map(|v| v.to_string()).unwrap_or("-".to_string()) }
@@ -46,6 +51,9 @@ impl Req {
     fn text(&self) -> String {
         match self {
             Req::PutW(k, v, w, t) => format!("putw {} {} {} {}", k, v, w, opt(t)),
+            Req::PutFn(k, v, w, t) => format!("putw {} {} {} {} #fn", k, v, w, opt(t)),
+            Req::MapGet(k) => format!("get {} #map", k),
+            Req::MapGetRef(k) => format!("getref {} #map", k),
             Req::Delete(k) => format!("delete {}", k),
             Req::Get(k) => format!("get {}", k),
             Req::Weight => "weight".to_string(),
@@ -234,6 +242,10 @@ impl World {
             Req::Delete(k) => CallOut::Send(cache.delete(k).map_err(|e| e.to_string())),
             Req::Get(k) => CallOut::Value(cache.get(&k)),
             Req::GetRef(k) => CallOut::Value(cache.get_ref(&k).map(|reference| reference.value().value())),
+            Req::PutFn(k, v, _, None) => CallOut::Send(cache.put(k, v).map_err(|e| e.to_string())),
+            Req::PutFn(k, v, _, Some(t)) => CallOut::Send(cache.put_with_ttl(k, v, duration_of(t)).map_err(|e| e.to_string())),
+            Req::MapGet(k) => CallOut::Value(cache.map_get(&k, |value| value + 1_000_000).map(|value| value - 1_000_000)),
+            Req::MapGetRef(k) => CallOut::Value(cache.map_get_ref(&k, |stored| stored.value() + 1_000_000).map(|value| value - 1_000_000)),
             Req::Shutdown => { cache.shutdown(); CallOut::Unit }
             Req::Weight => CallOut::Weight(cache.total_weight_used()),
             Req::Upsert(k, v, w, t, rm) => {
@@ -246,8 +258,8 @@ impl World {
             }
         }));
         self.pending_job[client] = true;
-        self.current_key[client] = match req_copy { Req::PutW(k, ..) | Req::Delete(k) | Req::Get(k) | Req::GetRef(k) | Req::Upsert(k, ..) => Some(k), _ => None };
-        self.is_getref[client] = matches!(req_copy, Req::GetRef(_));
+        self.current_key[client] = match req_copy { Req::PutW(k, ..) | Req::PutFn(k, ..) | Req::Delete(k) | Req::Get(k) | Req::MapGet(k) | Req::GetRef(k) | Req::MapGetRef(k) | Req::Upsert(k, ..) => Some(k), _ => None };
+        self.is_getref[client] = matches!(req_copy, Req::GetRef(_) | Req::MapGetRef(_));
     }
 
     /// the result of a call that has just completed on client `c`, rendered like the model's `Out`
@@ -371,6 +383,9 @@ fn parse_opt<T: std::str::FromStr>(text: &str) -> Option<T> { if text == "-" { N
 fn parse_req(tokens: &[&str]) -> Option<Req> {
     Some(match (tokens.first().copied()?, tokens.len()) {
         ("putw", 5) => Req::PutW(tokens[1].parse().ok()?, tokens[2].parse().ok()?, tokens[3].parse().ok()?, parse_opt(tokens[4])),
+        ("putw", 6) if tokens[5] == "#fn" => Req::PutFn(tokens[1].parse().ok()?, tokens[2].parse().ok()?, tokens[3].parse().ok()?, parse_opt(tokens[4])),
+        ("get", 3) if tokens[2] == "#map" => Req::MapGet(tokens[1].parse().ok()?),
+        ("getref", 3) if tokens[2] == "#map" => Req::MapGetRef(tokens[1].parse().ok()?),
         ("delete", 2) => Req::Delete(tokens[1].parse().ok()?),
         ("get", 2) => Req::Get(tokens[1].parse().ok()?),
         ("getref", 2) => Req::GetRef(tokens[1].parse().ok()?),
@@ -495,10 +510,14 @@ pub fn run(seed: u64, out: &str, args: &[String]) -> bool {
                     let shutdown_now = extended && !shutdown_done && shutdown_at.map(|at| step >= at).unwrap_or(false);
                     if shutdown_now { shutdown_done = true; }
                     let req = if shutdown_now { Req::Shutdown } else { match rng.below(if extended { 11 } else { 10 }) {
-                        10 => Req::GetRef(key),
-                        0 | 1 | 2 => Req::PutW(key, next_value, weight, ttl),
+                        10 => if rng.chance(30) { Req::MapGetRef(key) } else { Req::GetRef(key) },
+                        0 | 1 | 2 => if extended && rng.chance(30) {
+                            // `put` / `put_with_ttl`: the weight is what the installed weight function yields
+                            let by_fn = cfg.wbase + (next_value % cfg.wmod) as i64 + if ttl.is_some() { world.ttl_entry } else { 0 };
+                            Req::PutFn(key, next_value, by_fn, ttl)
+                        } else { Req::PutW(key, next_value, weight, ttl) },
                         3 => Req::Delete(key),
-                        4 | 5 => Req::Get(key),
+                        4 | 5 => if extended && rng.chance(30) { Req::MapGet(key) } else { Req::Get(key) },
                         6 => Req::Weight,
                         _ => {
                             let shape = rng.below(16);
